@@ -11,6 +11,7 @@
 #include <memory>
 #include <limits>
 #include <type_traits>
+#include <sys/mman.h>
 
 using namespace Parma_Polyhedra_Library;
 using pplv::Rng;
@@ -168,8 +169,9 @@ struct Run {
   // ---- reports ---------------------------------------------------------------------------------
   void status_line(int s) {
     OS o; slot[s]->ascii_dump(o);
-    std::string t = o.str(); size_t a = t.find('\n');
-    OS l; l << "st " << s << " " << t.substr(0, a);
+    std::string t = o.str(); size_t b = 0, a = t.find('\n');
+    while (a != std::string::npos && t[b] != '-' && t[b] != '+') { b = a + 1; a = t.find('\n', b); }
+    OS l; l << "st " << s << " " << t.substr(b, a == std::string::npos ? a : a - b);
     J.line(l.str());
   }
   // the set as the library reports it now; constraints() is const and does not touch the lazy state
@@ -194,6 +196,8 @@ struct Run {
 
   // ---- queries ---------------------------------------------------------------------------------
   template <typename Q> void box_bound_query(OS& o, const Q& q, dimension_type n, std::true_type) {
+    // (has_lower_bound / has_upper_bound require a box that is not marked empty)
+    { Q c(q); if (c.is_empty()) { o << "is_empty " << q.is_empty(); return; } }
     dimension_type v = r.below(n); bool up = r.chance(1, 2);
     Coefficient num, den; bool closed = false;
     bool has = up ? q.has_upper_bound(Variable(v), num, den, closed) : q.has_lower_bound(Variable(v), num, den, closed);
@@ -253,7 +257,7 @@ struct Run {
         bool with_point = r.chance(2, 3);
         bool ok = with_point ? (mx ? q.maximize(e, num, den, incl, g) : q.minimize(e, num, den, incl, g))
                              : (mx ? q.maximize(e, num, den, incl) : q.minimize(e, num, den, incl));
-        o << (mx ? "max" : "min"); put_expr(o, e, n);
+        o << (mx ? "max" : "min") << (with_point ? "p" : ""); put_expr(o, e, n);
         if (!ok) o << " none";
         else { o << " " << num << " " << den << " " << incl; if (with_point) put_gen(o, g, n); }
         break; }
@@ -586,16 +590,35 @@ struct Run {
   }
 };
 
+// Batches of histories in forked children; after a crash the parent resumes with the history that
+// follows the crashed one (the child publishes its progress in shared memory).
 template <typename S>
 static int go(const char* tname, long seed, long first, long last, long len, long maxdim, long batch) {
   uint64_t th = 1469598103934665603ull; for (const char* p = tname; *p; ++p) th = (th ^ (unsigned char)*p) * 1099511628211ull;
-  long nb = (last - first + batch - 1) / batch;
-  return pplv::run_batches(0, nb, [&](long b) {
-    for (long h = first + b * batch; h < std::min(last, first + (b + 1) * batch); ++h) {
-      Run<S> R(((uint64_t)seed * 1000003ull + (uint64_t)h) ^ th, tname);
-      R.history(h, seed, len, (dimension_type)maxdim);
+  volatile long* cur = (volatile long*)mmap(nullptr, sizeof(long), PROT_READ | PROT_WRITE, MAP_SHARED | MAP_ANONYMOUS, -1, 0);
+  if (cur == MAP_FAILED) { perror("mmap"); return 2; }
+  for (long h0 = first; h0 < last; ) {
+    long h1 = std::min(last, h0 + batch);
+    *cur = h0;
+    fflush(stdout);
+    pid_t pid = fork();
+    if (pid < 0) { perror("fork"); return 2; }
+    if (pid == 0) {
+      struct rlimit rl; rl.rlim_cur = 60; rl.rlim_max = 65; setrlimit(RLIMIT_CPU, &rl);
+      struct rlimit core; core.rlim_cur = core.rlim_max = 0; setrlimit(RLIMIT_CORE, &core);
+      for (long h = h0; h < h1; ++h) {
+        *cur = h;
+        Run<S> R(((uint64_t)seed * 1000003ull + (uint64_t)h) ^ th, tname);
+        R.history(h, seed, len, (dimension_type)maxdim);
+      }
+      _exit(0);
     }
-  }, 60);
+    int st = 0; waitpid(pid, &st, 0);
+    if (WIFSIGNALED(st)) { J.line(std::string("crash ") + pplv::signal_name(WTERMSIG(st))); J.line("end"); h0 = *cur + 1; }
+    else if (WIFEXITED(st) && WEXITSTATUS(st) != 0) { J.line("crash exit " + std::to_string(WEXITSTATUS(st))); J.line("end"); h0 = *cur + 1; }
+    else h0 = h1;
+  }
+  return 0;
 }
 
 #ifndef PPLV_TU
